@@ -37,7 +37,7 @@ def main(argv):
         queuefam.EXTRA_PLANS["C12"] = [others.LIMITS]
         queuefam.EXTRA_PLANS["C03"] = [others.LEASECONC]
         queuefam.EXTRA_PLANS["C04"] = [others.PULLOPS, others.LEASECONC]
-        queuefam.EXTRA_PLANS["C05"] = [others.PULLOPS]
+        queuefam.EXTRA_PLANS["C05"] = [others.PULLOPS, others.LONGPOLL]
     except ImportError:
         pass
     if prop not in table:
